@@ -70,6 +70,7 @@ func ergoDir(opts GlobalOptions) (string, error) {
 		}
 		start = wd
 	}
+	verifPoint("start")
 	debugf(opts, "discover start=%s", start)
 	return resolveErgoDir(start)
 }
@@ -80,6 +81,7 @@ func ergoDir(opts GlobalOptions) (string, error) {
 // - Otherwise if events.jsonl exists, use it
 // - For new files, default to plans.jsonl
 func getEventsPath(dir string) string {
+	verifPoint("path.stat")
 	plansPath := filepath.Join(dir, plansFileName)
 	oldPath := filepath.Join(dir, oldEventsFileName)
 
@@ -107,6 +109,7 @@ func loadGraph(dir string) (*Graph, error) {
 }
 
 func readEvents(path string) ([]Event, error) {
+	verifPoint("read.open")
 	file, err := os.Open(path)
 	if err != nil {
 		if errors.Is(err, os.ErrNotExist) {
@@ -118,6 +121,7 @@ func readEvents(path string) ([]Event, error) {
 
 	const maxEventLineBytes = 10 * 1024 * 1024
 
+	verifPoint("read.probe")
 	endsWithNewline := false
 	if info, err := file.Stat(); err == nil && info.Size() > 0 {
 		last := make([]byte, 1)
@@ -146,7 +150,9 @@ func readEvents(path string) ([]Event, error) {
 		return nil
 	}
 
+	verifPoint("read.scan")
 	for scanner.Scan() {
+		verifScanPoint(file)
 		currentNo++
 		line := append([]byte(nil), scanner.Bytes()...) // copy (scanner buffer is reused)
 		if pending != nil {
@@ -190,6 +196,7 @@ func formatEventsParseError(path string, lineNo int, line []byte, cause error) e
 }
 
 func appendEvents(path string, events []Event) error {
+	verifPoint("append.open")
 	file, err := os.OpenFile(path, os.O_APPEND|os.O_CREATE|os.O_WRONLY, 0644)
 	if err != nil {
 		return err
@@ -201,6 +208,7 @@ func appendEvents(path string, events []Event) error {
 			return err
 		}
 		line := append(data, '\n')
+		verifPoint("append.write")
 		if err := writeAll(file, line); err != nil {
 			return err
 		}
@@ -209,6 +217,7 @@ func appendEvents(path string, events []Event) error {
 }
 
 func writeEventsFile(path string, events []Event) error {
+	verifPoint("tmp.open")
 	file, err := os.OpenFile(path, os.O_CREATE|os.O_WRONLY|os.O_TRUNC, 0644)
 	if err != nil {
 		return err
@@ -220,13 +229,16 @@ func writeEventsFile(path string, events []Event) error {
 		if err != nil {
 			return err
 		}
+		verifPoint("tmp.write")
 		if _, err := writer.Write(append(data, '\n')); err != nil {
 			return err
 		}
 	}
+	verifPoint("tmp.flush")
 	if err := writer.Flush(); err != nil {
 		return err
 	}
+	verifPoint("tmp.sync")
 	return file.Sync()
 }
 
@@ -235,9 +247,11 @@ func replaceEventsAtomically(path string, events []Event) error {
 	if err := writeEventsFile(tmpPath, events); err != nil {
 		return err
 	}
+	verifPoint("replace.rename")
 	if err := os.Rename(tmpPath, path); err != nil {
 		return err
 	}
+	verifPoint("replace.syncdir")
 	return syncDir(filepath.Dir(path))
 }
 
